@@ -37,6 +37,12 @@ def find_def(modname: str, qualname: str) -> ast.AST:
                 node = child
                 break
         else:
+            # a function defined inside a compound statement of the enclosing function (e.g. a helper under an `if`): unique definition of that name
+            if isinstance(node, (ast.FunctionDef, ast.AsyncFunctionDef)):
+                hits = [n for n in ast.walk(node) if isinstance(n, (ast.FunctionDef, ast.AsyncFunctionDef)) and n.name == part and n is not node]
+                if len(hits) == 1:
+                    node = hits[0]
+                    continue
             raise TargetMissing(f"{modname}.{qualname}: '{part}' not found")
     return node
 
